@@ -78,6 +78,27 @@ def main():
         for f in fs:
             if f.endswith(".go"):
                 replace[os.path.join(REPO, "internal", rel, f)] = os.path.join(d, f)
+    # 1b. hook files for packages of dependency modules (module cache), at the
+    # version /repo's go.mod requires
+    mh = os.path.join(VERIF, "modhooks")
+    if os.path.isdir(mh):
+        gomod = open(os.path.join(REPO, "go.mod")).read()
+        for d, _, fs in os.walk(mh):
+            gofiles = [f for f in fs if f.endswith(".go")]
+            if not gofiles:
+                continue
+            rel = os.path.relpath(d, mh)
+            parts = rel.split(os.sep)
+            mod, sub = "/".join(parts[:3]), parts[3:]
+            m = re.search(r"^\s*" + re.escape(mod) + r"\s+(v\S+)", gomod, re.M)
+            if not m:
+                sys.exit("genoverlay: module %s is not required by go.mod" % mod)
+            esc = re.sub(r"[A-Z]", lambda x: "!" + x.group(0).lower(), mod)
+            base = os.path.join("/root/go/pkg/mod", esc + "@" + m.group(1), *sub)
+            if not os.path.isdir(base):
+                sys.exit("genoverlay: %s not in the module cache" % base)
+            for f in gofiles:
+                replace[os.path.join(base, f)] = os.path.join(d, f)
     # 2. harness packages and shims
     har = os.path.join(VERIF, "harness")
     for d, _, fs in os.walk(har):
